@@ -113,6 +113,18 @@ impl CertificateSigningRequestParams {
 		let alg = SignatureAlgorithm::from_oid(&alg_oid)?;
 
 		let info = &csr.certification_request_info;
+		// The signature OID alone does not identify the kind of key: ecdsa-with-SHA256, say, can
+		// also be produced by a P-384 key. Only accept keys of exactly the kind `alg` stands for,
+		// otherwise the public key would be re-encoded under a wrong algorithm identifier.
+		{
+			use x509_parser::x509::AlgorithmIdentifier;
+			let expected = yasna::construct_der(|writer| alg.write_oids_sign_alg(writer));
+			let (_, expected) = AlgorithmIdentifier::from_der(&expected)
+				.map_err(|_| Error::UnsupportedSignatureAlgorithm)?;
+			if expected != info.subject_pki.algorithm {
+				return Err(Error::UnsupportedSignatureAlgorithm);
+			}
+		}
 		let mut params = CertificateParams {
 			distinguished_name: DistinguishedName::from_name(&info.subject)?,
 			..CertificateParams::default()
